@@ -103,16 +103,35 @@ pub fn evaluate(p: &PropDef, o: &Opts, cases: Vec<Case>) -> Vec<Done> {
             obs.push(ob);
         }
     }
-    let out = Command::new(&o.driver).arg(&path).output().expect("run driver");
-    let text = String::from_utf8_lossy(&out.stdout);
+    // the driver writes to a file; it is killed if it does not finish in time
+    let out_path = o.run_dir.join(format!("batch-{}.out", n));
+    let limit = std::time::Duration::from_secs(std::env::var("VERIF_DRIVER_TIMEOUT_S").ok().and_then(|s| s.parse().ok()).unwrap_or(1500));
+    let started = Instant::now();
+    let mut child = Command::new(&o.driver).arg(&path)
+        .stdout(Stdio::from(std::fs::File::create(&out_path).expect("driver output file")))
+        .stderr(Stdio::null()).spawn().expect("run driver");
+    let mut code: Option<i32> = None;
+    let mut timed_out = false;
+    loop {
+        match child.try_wait() {
+            Ok(Some(st)) => { code = st.code(); break; }
+            Ok(None) => {
+                if started.elapsed() > limit { let _ = child.kill(); let _ = child.wait(); timed_out = true; break; }
+                std::thread::sleep(std::time::Duration::from_millis(20));
+            }
+            Err(_) => break,
+        }
+    }
+    let text = std::fs::read_to_string(&out_path).unwrap_or_default();
     let lines: Vec<&str> = text.lines().collect();
     let _ = std::fs::remove_file(&path);
+    let _ = std::fs::remove_file(&out_path);
     let mut res = Vec::with_capacity(cases.len());
     for (i, c) in cases.into_iter().enumerate() {
         let v = match lines.get(i) {
             Some(l) => parse_verdict(l),
             None => Verdict { kind: "badcase".into(), nontrivial: false, classes: vec![],
-                detail: format!("driver produced no answer (exit {:?}): {}", out.status.code(), String::from_utf8_lossy(&out.stderr).trim()) },
+                detail: format!("driver produced no answer for this case (exit {:?}{})", code, if timed_out { ", killed after timeout" } else { "" }) },
         };
         res.push(Done { case: c, obs: obs[i].clone(), v });
     }
@@ -318,7 +337,7 @@ pub fn run_prop(p: &PropDef, o: &Opts) -> i32 {
     if let Some(sp) = &o.stats {
         let samples: Vec<String> = done.iter().filter(|d| d.v.nontrivial).take(3)
             .chain(done.iter().take(2))
-            .map(|d| json_str(&truncate(&case_line(p.id, &d.case.stream, &d.case.input, &d.obs), 700))).collect();
+            .map(|d| json_str(&truncate(&case_line(p.id, &d.case.stream, &d.case.input, &d.obs), 320))).collect();
         let cls: Vec<String> = classes.iter().map(|(k, v)| format!("{}: {}", json_str(k), v)).collect();
         let st: Vec<String> = streams.iter().map(|(k, v)| format!("{}: {}", json_str(k), v)).collect();
         let js = format!(
